@@ -48,9 +48,9 @@ def _setup(cfg, rec=None, wrap=True):
     if wrap:
         symsim.instrument(s, rec)
     mapped = set(id(l) for l in d['regs'].values()) | set(id(l) for l in d['mems'].values())
-    for l in symsim.sequential_leaves(s):
-        if id(l) not in mapped:
-            raise common.HarnessError('sequential leaf %s is not mapped to the reference state' % l.getFullPath())
+    # state the block has beyond its documented machine (e.g. a register a refactoring added): the inductive step cannot be
+    # set up for it, the bounded run from power-up still compares every output with the reference
+    d['_unmapped'] = [l.getFullPath() for l in symsim.sequential_leaves(s) if id(l) not in mapped]
     return s, d
 
 
@@ -170,6 +170,10 @@ def seq_task(p, cfg, rec):
         p.res['refused'] += 1
         p.note('%s: constructor refused: %r' % (p.config, e))
         return
+    if d['_unmapped']:
+        p.inconclusive('induction', 'sequential leaves outside the reference state machine (%s): inductive step skipped, bounded run from power-up only'
+                       % ', '.join(d['_unmapped']))
+        return _bmc(p, cfg, rec, init, nxt, out, K)
     Wd = widths_of(d)
     I0w = symsim.poke_fresh(list(d['ins'].values()), 'p_')
     I0 = {n: I0w[w] for n, w in d['ins'].items()}
@@ -267,8 +271,13 @@ def seq_task(p, cfg, rec):
     p.assumptions = []
     ctx.set_assumptions([])
 
+    return _bmc(p, cfg, rec, init, nxt, out, K)
+
+
+def _bmc(p, cfg, rec, init, nxt, out, K):
     # ---------------- BMC from power-up ----------------------------------------------------------
     s, d = _setup(cfg, rec)
+    Wd = widths_of(d)
     Is = []
     Iw = symsim.poke_fresh(list(d['ins'].values()), 'c0_')
     Is.append({n: Iw[w] for n, w in d['ins'].items()})
